@@ -111,3 +111,17 @@ REG.add(Contract(F_QA, '_list_items', params=[('cp', T.Obj('ConfigParser'))], re
     definitions=lambda: [other_sections.positions_lemma()],
     raises_when=lambda v, old, exc: [z3.BoolVal(False)], on_raise=lambda v, old: [], raises_classes=[], instantiate_int_foralls=True,
     carries=['post', 'preserve/0', 'comprehension'], props=['C14']))
+
+# ---- the two listing actions: what goes to standard output
+def _label(items, k): return ItemS.accessor(0, 0)(items[k])
+def _value(items, k): return ItemS.accessor(0, 1)(items[k])
+listing_lines = SpecSeq('listing_lines', [ItemL], lambda items, k: tok("{}={}\n", _label(items, k), _value(items, k)), result=Doc)            # SECTION_NAME:KEY=VALUE
+label_lines = SpecSeq('label_lines', [ItemL], lambda items, k: tok("{}\n", _label(items, k)), result=Doc)                                   # SECTION_NAME:KEY
+def _listing(cp): return whole_listing(raw_of(cp), z3.Length(var_keys(raw_of(cp))))
+for _q, _spec in (('action_list_items', listing_lines), ('action_list_item_labels', label_lines)):
+    REG.add(Contract(F_QA, _q, params=[('cp', T.Obj('ConfigParser'))],
+        ensures=lambda v, old, res, _spec=_spec: [v.stdout == cat(old.stdout, _spec(_listing(v.cp), z3.Length(_listing(v.cp))))],
+        post_names=['one-line-per-item-of-the-listing-in-its-order'],
+        invariants={0: lambda v, old, _spec=_spec: [v.stdout == cat(old.stdout, _spec(v.items, v._i0)), v.items == _listing(v.cp)]},
+        raises_when=lambda v, old, exc: [z3.BoolVal(False)], on_raise=lambda v, old: [], raises_classes=[],
+        carries=['post', 'preserve/0'], props=['C14']))
